@@ -573,11 +573,15 @@ class Function:
         self._write_list = out
         return out
 
-    def _terms(self, cond):
+    def _terms(self, cond, depth=0):
         ts = set()
         for x in cond.walk():
             if x.k == "DeclRefExpr" and x.decl and x.decl.get("k") in ("local", "parm", "binding"):
                 ts.add(("id", x.decl["id"]))
+                if x.decl.get("k") == "local" and x.tc == "bool" and depth < 3:
+                    d = _single_def(x)
+                    if d is not None:
+                        ts |= self._terms(d, depth + 1)     # a flag is only as fresh as what it was computed from
             elif x.k == "MemberExpr" and x.decl and x.decl.get("k") == "field" and (not x.c or x.c[0].strip_all().k == "CXXThisExpr"):
                 ts.add(("field", x.decl["n"]))
         return ts
